@@ -119,33 +119,50 @@ class Run:
             self.merge_result(r)
         if not targets and not need_lemmas and not need_facts:
             return None, None
-        nw = workers or min(8, max(1, len(targets)))
-        chunks = [[] for _ in range(nw)]
-        for i, t in enumerate(targets):
-            chunks[i % nw].append(t)
+        # one fresh worker process per function: the queries generated for a
+        # function then do not depend on which other functions a check asks
+        # for (fresh-symbol counters and term ids are per process), so a
+        # function's verdict is the same in every check; heaviest first
+        weights = load_weights()
+        targets.sort(key=lambda t: -weights.get(t, 1.0))
+        heavy = sum(1 for t in targets if weights.get(t, 1.0) > 30)
         jobs = []
-        for k, ch in enumerate(chunks):
-            if not ch and k > 0:
-                continue
-            jobs.append({'targets': ch, 'repo': self.repo,
+        for k, t in enumerate(targets):
+            jobs.append({'targets': [t], 'repo': self.repo,
                          'budget': self.budget, 'opts': opts or {},
-                         'carves': carves or {},
-                         'lemmas': bool(need_lemmas and k == 0),
-                         'facts': list(facts) if (k == 0 and need_facts)
-                         else [],
-                         'solver_jobs': max(2, 16 // max(1, len(chunks)))})
+                         'carves': carves or {}, 'lemmas': False,
+                         'facts': [],
+                         'solver_jobs': 4 if weights.get(t, 1.0) > 30
+                         else 2})
+        if need_lemmas or need_facts:
+            jobs.append({'targets': [], 'repo': self.repo,
+                         'budget': self.budget, 'opts': opts or {},
+                         'carves': carves or {}, 'lemmas': need_lemmas,
+                         'facts': list(facts) if need_facts else [],
+                         'solver_jobs': 4})
+        nw = workers or 8
         t0 = time.time()
 
         def run_job(job):
+            tj = time.time()
+            r = run_job1(job)
+            if len(job['targets']) == 1 and 'functions' in r and \
+                    job['targets'][0] in r['functions']:
+                r['functions'][job['targets'][0]]['wall_s'] = round(
+                    time.time() - tj, 1)
+            return r
+
+        def run_job1(job):
             p = subprocess.run(
                 ['python3-vt', os.path.join(VERIF, 'checks', 'worker.py')],
                 input=json.dumps(job), stdout=subprocess.PIPE,
-                stderr=subprocess.PIPE, text=True, cwd=VERIF)
+                stderr=subprocess.PIPE, text=True, cwd=VERIF,
+                env=dict(os.environ, PYTHONHASHSEED='0'))
             if p.returncode != 0 or not p.stdout.strip():
                 return {'error': (p.stderr or p.stdout)[-1500:],
                         'targets': job['targets']}
             return json.loads(p.stdout)
-        with ThreadPoolExecutor(len(jobs)) as ex:
+        with ThreadPoolExecutor(max(1, min(nw, len(jobs)))) as ex:
             results = list(ex.map(run_job, jobs))
         self.timing['verify_wall_s'] = self.timing.get(
             'verify_wall_s', 0) + time.time() - t0
@@ -386,6 +403,16 @@ def cache_base(repo, budget, opts, carves):
     h.update(json.dumps([budget, opts or {}, carves or {}],
                         sort_keys=True, default=str).encode())
     return h.hexdigest()[:24]
+
+
+def load_weights():
+    """seconds a function's verification took when the baseline was written
+    (scheduling hint only)"""
+    try:
+        with open(os.path.join(VERIF, 'checks', 'weights.json')) as f:
+            return json.load(f)
+    except (OSError, ValueError):
+        return {}
 
 
 def cache_path(base, key):
@@ -821,6 +848,12 @@ def finish(run, prop, t0, write_baseline=False):
         }
         with open(p, 'w') as f:
             json.dump(allb, f, indent=1, sort_keys=True)
+        w = load_weights()
+        for q, i in run.functions.items():
+            if i.get('wall_s') is not None:
+                w[q] = i['wall_s']
+        with open(os.path.join(VERIF, 'checks', 'weights.json'), 'w') as f:
+            json.dump(w, f, indent=1, sort_keys=True)
 
     for ln in out_lines:
         print(ln)
